@@ -52,7 +52,7 @@ pub fn run(ctx: &mut Ctx) {
         }
     }
     // op 11 / 8 / 9: verifier (public API, tape salt), server public key and S (hooks)
-    let n_big = if ctx.quick() { 6 } else { 40 };
+    let n_big = if ctx.quick() { 24 } else { 200 };
     for k in 0..n_big {
         let (ul, pl) = (1 + k % 16, 16 - k % 16);
         let (u, p) = (rand_cred(&mut rng, ul), rand_cred(&mut rng, pl));
@@ -79,7 +79,7 @@ pub fn run(ctx: &mut Ctx) {
     // op 10 / 12 / 3: client under announced groups
     let gens = [2u8, 3, 5, 7, 11, 255];
     let primes = primes_le();
-    let n_groups = if ctx.quick() { 2 } else { 8 };
+    let n_groups = if ctx.quick() { 4 } else { 24 };
     for (pi, n) in primes.iter().enumerate() {
         for r in 0..n_groups {
             let g = if r == 0 { 7 } else { *rng.pick(&gens) };
